@@ -1,6 +1,7 @@
 package main
 
 import (
+	"fmt"
 	"go/types"
 	"strings"
 
@@ -18,55 +19,151 @@ func (c *Enc) initFacts() {
 	if initFn == nil || len(initFn.Blocks) < 2 {
 		return
 	}
-	fr := c.newFrame(initFn, false)
-	c.frameDepth--
-	fr.id = "init_"
-	st := &State{h: map[string]Term{}, pre: true}
-	c.heapVar("nextRef", SInt)
-	c.allocLog = []Term{}
-	defer func() { c.allocLog = nil }()
-	savedSafe := c.obls
-	savedCount := map[string]int{}
-	for k, v := range c.safeCount {
-		savedCount[k] = v
+	// The initialiser is interpreted with Go-level data structures (it is straight-line code that builds
+	// literals), and only the final content of each object is asserted about the entry state.
+	type obj struct {
+		ref   Term
+		kind  string // map | array
+		typ   types.Type
+		keys  []Term
+		vals  map[string]Term
+		elems map[int64]Term
 	}
+	vals := map[ssa.Value]Term{}
+	objs := map[ssa.Value]*obj{}
+	var order []*obj
+	elemAddr := map[ssa.Value]struct {
+		o *obj
+		i int64
+	}{}
+	c.heapVar("nextRef", SInt)
+	prev := IntLit(0)
+	newObj := func(v ssa.Value, kind string, t types.Type) *obj {
+		c.n++
+		r := Term{fmt.Sprintf("initref!%d", c.n), SInt}
+		c.declare(r.S, SInt)
+		c.assert(And(Lt(prev, r), Lt(r, c.heapInit["nextRef"])))
+		prev = r
+		o := &obj{ref: r, kind: kind, typ: t, vals: map[string]Term{}, elems: map[int64]Term{}}
+		objs[v] = o
+		order = append(order, o)
+		vals[v] = r
+		return o
+	}
+	val := func(v ssa.Value) (Term, bool) {
+		if k, ok := v.(*ssa.Const); ok {
+			return c.constTerm(k), true
+		}
+		t, ok := vals[v]
+		return t, ok
+	}
+	supported := true
 	for _, ins := range initFn.Blocks[1].Instrs {
 		switch x := ins.(type) {
+		case *ssa.DebugRef, *ssa.Jump, *ssa.If, *ssa.Return:
 		case *ssa.Call:
-			if callee := x.Common().StaticCallee(); callee != nil && callee.Name() == "init" {
+			callee := x.Common().StaticCallee()
+			if callee != nil && callee.Name() == "init" {
 				continue
 			}
-			fr.encodeInstr(ins, True, st)
+			if callee != nil && callee.String() == "errors.New" {
+				e := c.fresh("err", SInt)
+				c.declareFun("errMsg", []Sort{SInt}, SInt)
+				msg, _ := val(x.Common().Args[0])
+				c.assert(And(Not(Eq(e, IntLit(0))), Eq(Term{app("errMsg", e), SInt}, msg)))
+				vals[x] = e
+				continue
+			}
+			supported = false
+		case *ssa.Alloc:
+			elem := x.Type().Underlying().(*types.Pointer).Elem()
+			if arr, ok := elem.Underlying().(*types.Array); ok {
+				newObj(x, "array", arr.Elem())
+			} else {
+				supported = false
+			}
+		case *ssa.IndexAddr:
+			o, ok := objs[x.X]
+			k, isConst := x.Index.(*ssa.Const)
+			if !ok || !isConst {
+				supported = false
+				continue
+			}
+			elemAddr[x] = struct {
+				o *obj
+				i int64
+			}{o, k.Int64()}
+		case *ssa.MakeMap:
+			newObj(x, "map", x.Type())
+		case *ssa.MapUpdate:
+			o, ok := objs[x.Map]
+			k, okk := val(x.Key)
+			if !ok || !okk {
+				supported = false
+				continue
+			}
+			if _, seen := o.vals[k.S]; !seen {
+				o.keys = append(o.keys, k)
+			}
+			v, _ := val(x.Value)
+			o.vals[k.S] = v
+		case *ssa.Slice:
+			o, ok := objs[x.X]
+			if !ok || x.Low != nil || x.High != nil {
+				supported = false
+				continue
+			}
+			n := x.X.Type().Underlying().(*types.Pointer).Elem().Underlying().(*types.Array).Len()
+			vals[x] = Term{app("mk-slice", o.ref, IntLit(0), IntLit(n), IntLit(n)), SSlice}
 		case *ssa.Store:
-			if g, ok := x.Addr.(*ssa.Global); ok && strings.HasPrefix(g.Name(), "init$") {
+			if g, ok := x.Addr.(*ssa.Global); ok {
+				if strings.HasPrefix(g.Name(), "init$") {
+					continue
+				}
+				v, okv := val(x.Val)
+				if !okv {
+					supported = false
+					continue
+				}
+				if c.eng.globalReadOnly(g) {
+					name := c.cellVar("GL_"+g.Name(), g.Type().(*types.Pointer).Elem())
+					c.assert(Eq(c.heapInit[name], v))
+					c.notes = append(c.notes, "package variable "+g.Name()+": initial value taken from the package initialiser; no other write found in the package (checked syntactically)")
+				}
 				continue
 			}
-			fr.encodeInstr(ins, True, st)
-		case *ssa.Jump, *ssa.If, *ssa.Return:
+			if ea, ok := elemAddr[x.Addr]; ok {
+				v, _ := val(x.Val)
+				ea.o.elems[ea.i] = v
+				continue
+			}
+			supported = false
 		default:
-			fr.encodeInstr(ins, True, st)
+			supported = false
 		}
 	}
-	// obligations generated while replaying init (index checks on literals) are not the function's
-	c.obls = savedSafe
-	c.safeCount = savedCount
-	allocs := c.allocLog
-	for _, k := range sortedKeysOf(keysOfState(st)) {
-		final := st.h[k]
-		init := c.heapInit[k]
-		switch {
-		case strings.HasPrefix(k, "GL_"):
-			name := strings.TrimPrefix(k, "GL_")
-			if g, ok := c.eng.pkg.Members[name].(*ssa.Global); ok && c.eng.globalReadOnly(g) {
-				c.assert(Eq(init, final))
-				c.notes = append(c.notes, "package variable "+name+": initial value taken from the package initialiser; no other write found in the package (checked syntactically)")
+	if !supported {
+		c.notes = append(c.notes, "package initialiser contains statements the init-fact interpreter does not support; unsupported parts are ignored (fewer facts, still sound)")
+	}
+	for _, o := range order {
+		switch o.kind {
+		case "map":
+			dom, valH, ks, vs := c.mapHeaps(o.typ)
+			set := Term{fmt.Sprintf("((as const %s) false)", ArraySort(ks, SBool)), ArraySort(ks, SBool)}
+			for _, k := range o.keys {
+				set = Store(set, k, True)
 			}
-		case isLocationHeap(k):
-			for _, r := range allocs {
-				c.assert(Eq(Term{app("select", init, r), ""}, Term{app("select", final, r), ""}))
+			c.assert(Eq(Select(c.heapInit[dom], o.ref, ArraySort(ks, SBool)), set))
+			if vs != SUnit {
+				for _, k := range o.keys {
+					c.assert(Eq(Select(Select(c.heapInit[valH], o.ref, ArraySort(ks, vs)), k, vs), o.vals[k.S]))
+				}
 			}
-		case k == "nextRef":
-			c.assert(Le(final, init))
+		case "array":
+			heap, es := c.elemHeap(o.typ)
+			for i, v := range o.elems {
+				c.assert(Eq(Select(Select(c.heapInit[heap], o.ref, ArraySort(SInt, es)), IntLit(i), es), v))
+			}
 		}
 	}
 }
